@@ -21,3 +21,53 @@ class Bounded:
         if self._replay is None:
             return False
         return self._replay(payload['failure'])
+
+
+def run_isolated(func, tier, seed, timeout_s, what):
+    """Run `func(tier, seed)` in a forked child and return its result dictionary.  For checks whose subject can leave process-wide state behind (a lock held
+    by a finished thread, a switched locale): the pool re-uses worker processes, so such a leftover would block or distort every later check of the same worker.
+    A child that does not answer within `timeout_s` is killed and reported as a failure of the property (the evaluation under test blocks), not as a checker error."""
+    import json, os, select, signal, time
+    r_fd, w_fd = os.pipe()
+    pid = os.fork()
+    if pid == 0:                                    # child
+        try:
+            os.close(r_fd)
+            try:
+                out = func(tier, seed)
+            except BaseException as e:              # noqa - the parent turns this into a checker error
+                out = {'status': 'error', 'error': f'{type(e).__name__}: {e}', 'failures': []}
+            data = json.dumps(out, default=repr).encode()
+            with os.fdopen(w_fd, 'wb') as f:
+                f.write(data)
+        finally:
+            os._exit(0)
+    os.close(w_fd)
+    chunks, deadline = [], time.time() + timeout_s
+    with os.fdopen(r_fd, 'rb') as f:
+        while True:
+            left = deadline - time.time()
+            if left <= 0:
+                break
+            ready, _, _ = select.select([f], [], [], min(left, 1.0))
+            if ready:
+                b = os.read(f.fileno(), 1 << 16)
+                if not b:
+                    break
+                chunks.append(b)
+    data = b''.join(chunks)
+    timed_out = time.time() >= deadline and not data
+    try:
+        if timed_out:
+            os.kill(pid, signal.SIGKILL)
+        os.waitpid(pid, 0)
+    except (ChildProcessError, ProcessLookupError):
+        pass
+    if timed_out or not data:
+        return {'evaluations': 0, 'distinct': 0, 'failures': [{'key': f'{what}: the check did not complete within {timeout_s} s',
+                                                               'what': f'{what}: an evaluation blocks (typically a lock left held by an earlier evaluation); the isolated '
+                                                               f'child process was killed after {timeout_s} s'}], 'scope': what}
+    out = json.loads(data.decode())
+    if out.get('status') == 'error':
+        raise RuntimeError(out.get('error'))
+    return out
